@@ -48,7 +48,8 @@ TrReg ==
                  SeqSet(R.claims[a]) = (IF a \in ents THEN {"entity"} ELSE {}) \cup {"node:" \o n.id : n \in {x \in ns : x.ent = a}}
                                         \cup {"runtime:" \o r.id : r \in {x \in SeqSet(R.runtimes) : x.claim_account = a}},
               "K5 stake claims differ from those implied by the registered entities, nodes and runtimes">>,
-            <<\A r \in SeqSet(R.runtimes) : r.claim_account \in DOMAIN R.claims, "K5 a registered runtime's governing account holds no claim record">>
+            <<\A r \in SeqSet(R.runtimes) : r.claim_account \in DOMAIN R.claims, "K5 a registered runtime's governing account holds no claim record">>,
+            <<\A r \in SeqSet(R.runtimes) : r.ent \in ents, "K4 a registered runtime's owning entity is not registered">>
           >>)
     /\ nReg' = nReg + 1 /\ UNCHANGED nAuth
 
